@@ -242,6 +242,115 @@ def run_step(case):
     return s0, a, s, err, rng
 
 
+def _mutable_nodes(x):
+    """ids of the parts of a state that the library updates in place: the state, its grid, the row lists,
+    doors (and anything holding one), the agent and its pose"""
+    from gym_gridverse.grid_object import Box, Door
+
+    ids = {id(x), id(x.grid), id(x.grid.objects), id(x.agent), id(x.agent.transform)}
+    ids.update(id(r) for r in x.grid.objects)
+
+    def walk(o):
+        if isinstance(o, Door):
+            ids.add(id(o))
+            return True
+        if isinstance(o, Box) and walk(o.content):
+            ids.add(id(o))  # a box is only as immutable as what it holds
+            return True
+        return False
+
+    for r in x.grid.objects:
+        for o in r:
+            walk(o)
+    walk(x.agent.grid_object)
+    return ids
+
+
+def functional_interface_violations(c):
+    """the step of a `step` case taken through the functional interface - `transition_with_copy` and
+    `GridWorld.functional_step` - instead of in place: same next state as the in-place dynamics on a
+    fresh state, input state untouched, nothing mutable shared between input and result (a later change
+    of either is invisible in the other), reward and flag equal to the components evaluated on the
+    untouched triple.  Shared by the oracles of the dynamics properties, whose statements are about
+    what a step does to *a* state: a step that also edits the state it started from is a violation of
+    each of them."""
+    import functools
+    from harness.recrng import ScriptRng
+    from gym_gridverse.envs import observation_functions as of
+    from gym_gridverse.envs import reset_functions as rsf
+    from gym_gridverse.envs import reward_functions as rf
+    from gym_gridverse.envs import terminating_functions as tf
+    from gym_gridverse.envs import transition_functions as trf
+    from gym_gridverse.envs.gridworld import GridWorld
+    from gym_gridverse.geometry import Shape
+    from gym_gridverse.grid_object import Color, Door, Key, grid_object_registry
+    from gym_gridverse.spaces import ActionSpace, ObservationSpace, StateSpace
+
+    out = []
+    a = ACTIONS[c['action']]
+    fresh = lambda: state_from_str(c['state'])  # noqa: E731
+    ref = fresh()
+    if not in_grid(ref.grid, ref.agent.position):
+        return out
+    try:
+        r0 = ScriptRng(list(c['answers']))
+        for i in c['atoms']:
+            trf.transition_function_registry[TRANS_NAMES[i]](ref, a, rng=r0)
+    except Exception:
+        return out  # totality is C01's business
+    want = enc_state(ref)
+    fns = [trf.transition_function_registry[TRANS_NAMES[i]] for i in c['atoms']]
+    chain = functools.partial(trf.chain, transition_functions=fns)
+    rewards = [
+        functools.partial(rf.actuate_door, reward_open=3.0, reward_close=-2.0),
+        functools.partial(rf.pickndrop, object_type=Key, reward_pick=1.5, reward_drop=-0.5),
+        functools.partial(rf.bump_into_wall, reward=-1.0),
+        functools.partial(rf.reach_exit, reward_on=5.0, reward_off=0.25),
+        functools.partial(rf.bump_moving_obstacle, reward=-4.0),
+    ]
+    rew = functools.partial(rf.reduce_sum, reward_functions=rewards)
+    term = functools.partial(tf.reduce_any, terminating_functions=[tf.reach_exit, tf.bump_moving_obstacle, tf.bump_into_wall])
+    h, w = ref.grid.shape.as_tuple
+    kinds = [k for k in grid_object_registry if k.__name__ not in ('NoneGridObject', 'Hidden')]
+    env = GridWorld(
+        StateSpace(Shape(h, w), kinds, list(Color)),
+        ActionSpace(list(ACTIONS)),
+        ObservationSpace(Shape(3, 3), list(grid_object_registry), list(Color)),
+        functools.partial(rsf.empty, shape=Shape(4, 4)),
+        chain,
+        functools.partial(of.fully_transparent, area=Area((-2, 0), (-1, 1))),
+        rew,
+        term,
+    )
+    for via in ('transition_with_copy', 'functional_step'):
+        s0 = fresh()
+        rng = ScriptRng(list(c['answers']))
+        try:
+            if via == 'transition_with_copy':
+                s1, r, d = trf.transition_with_copy(chain, s0, a, rng=rng), None, None
+            else:
+                env._rng = rng
+                s1, r, d = env.functional_step(s0, a)
+        except Exception as e:
+            if via == 'functional_step' and isinstance(e, ValueError):
+                continue  # the debug-gated membership checks (states outside the declared space)
+            out.append(V(f'{via}/raises-where-the-in-place-dynamics-do-not', f'{type(e).__name__} on {c["state"]} a={a.name} atoms={c["atoms"]}'))
+            continue
+        if enc_state(s1) != want:
+            out.append(V(f'{via}/next-state-differs-from-in-place-dynamics', f'{c["state"]} a={a.name} atoms={c["atoms"]}: {enc_state(s1)} instead of {want}'))
+        if enc_state(s0) != c['state']:
+            out.append(V(f'{via}/input-state-changed', f'{c["state"]} a={a.name} atoms={c["atoms"]}: the state stepped from now reads {enc_state(s0)}'))
+        elif _mutable_nodes(s0) & _mutable_nodes(s1):
+            out.append(V(f'{via}/next-state-shares-mutable-part-with-input', f'{c["state"]} a={a.name} atoms={c["atoms"]}'))
+        if r is not None and not out:
+            p0, p1 = fresh(), state_from_str(want)
+            exp_r, exp_d = sum(f(p0, a, p1) for f in rewards), term(p0, a, p1)
+            if r != exp_r or d != exp_d:
+                out.append(V('functional_step/reward-or-flag-differs-from-components-on-the-triple', f'{c["state"]} a={a.name} atoms={c["atoms"]}: got {(r, d)}, the components give {(exp_r, exp_d)}'))
+    return out
+
+
+
 def in_grid(g, p):
     return 0 <= p.y < g.shape.height and 0 <= p.x < g.shape.width
 
@@ -718,8 +827,14 @@ class C12(Oracle):
         from harness import corr_core
 
         k = 0
+        steps = C10().gen(rng)
         while True:
             k += 1
+            if k % 4 == 0:
+                # the reward and flag an environment actually returns for a step (door / key / wall / exit
+                # focused states): those of the components on that step's own (state, action, next state)
+                yield next(steps)
+                continue
             s, a, s2 = corr_core._reward_triples(rng, k)
             corr_core._uniquify(rng, s, s2)
             yield {'kind': 'triple', 's': enc_state(s), 'a': a.value, 's2': enc_state(s2)}
@@ -728,6 +843,8 @@ class C12(Oracle):
         return triple_case_from_line(line)
 
     def check(self, c):
+        if c.get('kind') == 'step':
+            return functional_interface_violations(c)
         from gym_gridverse.envs import reward_functions as rf
         from gym_gridverse.envs import terminating_functions as tf
         from gym_gridverse.grid_object import Beacon, Door, Exit, Key, MovingObstacle, Wall
@@ -901,27 +1018,53 @@ class C05(Oracle):
         return obs_case_from_line(line)
 
     def check(self, c):
-        from gym_gridverse.grid_object import Hidden
+        import numpy as np
+        from gym_gridverse.envs import observation_functions as of
 
-        out = []
         s = state_from_str(c['state'])
         a = c['area']
         area = Area((a[0], a[1]), (a[2], a[3]))
+        out = self._one(c, c['which'], s, area, lambda: real_obs(c['which'], s, area, c['seed']))
+        if out:
+            return out
+        # the same state object again, through the other functions: what an earlier call computed (or
+        # masked) must not show in a later one
+        out = self._one(c, 'fully_transparent', s, area, lambda: real_obs('fully_transparent', s, area, c['seed']), tag=' (after an earlier observation of the same state object)')
+        if out:
+            return out
+        # a function obtained by name, used on this state and then on an equal state made of other objects
+        # (equality ignores what a Box contains): each observation shows the objects of its own state
         try:
-            o = real_obs(c['which'], s, area, c['seed'])
+            f = of.factory(c['which'], area=area)
+        except Exception as e:
+            return [V('observation/factory-raises', f'{type(e).__name__} {c}')]
+        out = self._one(c, c['which'], s, area, lambda: f(s, rng=np.random.default_rng(c['seed'])), tag=' (function obtained by name)')
+        s2 = state_from_str(c['state'])
+        out += self._one(c, c['which'], s2, area, lambda: f(s2, rng=np.random.default_rng(c['seed'])), tag=' (function obtained by name, second equal state)')
+        if enc_state(s) != c['state']:
+            out.append(V('observation/modifies-state', f'{c}'))
+        return out
+
+    @staticmethod
+    def _one(c, which, s, area, call, tag=''):
+        from gym_gridverse.grid_object import Hidden
+
+        out = []
+        try:
+            o = call()
         except NotImplementedError:
-            if c['which'] == 'partially_occluded' and area.ymax != 0:
+            if which == 'partially_occluded' and area.ymax != 0:
                 return out
-            return [V('observation/raises', f'{c}')]
+            return [V('observation/raises', f'{c}{tag}')]
         except ValueError:
             pov = Position(-area.ymin, -area.xmin)
-            if c['which'] in ('raytracing', 'stochastic_raytracing') and not (0 <= pov.y < area.height and 0 <= pov.x < area.width):
+            if which in ('raytracing', 'stochastic_raytracing') and not (0 <= pov.y < area.height and 0 <= pov.x < area.width):
                 return out
-            return [V('observation/raises', f'{c}')]
+            return [V('observation/raises', f'{c}{tag}')]
         except Exception as e:
-            return [V('observation/raises', f'{type(e).__name__} {c}')]
+            return [V('observation/raises', f'{type(e).__name__} {c}{tag}')]
         if o.grid.shape.as_tuple != (area.height, area.width):
-            out.append(V('observation/shape', f'{c}'))
+            out.append(V('observation/shape', f'{c}{tag}'))
             return out
         t = s.agent.transform
         for i in range(area.height):
@@ -931,16 +1074,16 @@ class C05(Oracle):
                 inside = in_grid(s.grid, wp)
                 if not inside:
                     if not isinstance(cell, Hidden):
-                        out.append(V('observation/outside-grid-not-hidden', f'{c} cell {(i, j)}'))
+                        out.append(V('observation/outside-grid-not-hidden', f'{c} cell {(i, j)}{tag}'))
                 elif not isinstance(cell, Hidden):
                     if cell is not s.grid[wp]:
-                        out.append(V('observation/shows-wrong-object', f'{c} cell {(i, j)} world {wp}'))
-                elif c['which'] == 'fully_transparent' and not isinstance(s.grid[wp], Hidden):
-                    out.append(V('observation/transparent-hides-cell', f'{c} cell {(i, j)}'))
+                        out.append(V('observation/shows-wrong-object', f'{c} cell {(i, j)} world {wp}{tag}'))
+                elif which == 'fully_transparent' and not isinstance(s.grid[wp], Hidden):
+                    out.append(V('observation/transparent-hides-cell', f'{c} cell {(i, j)}{tag}'))
         if o.agent.position != Position(-area.ymin, -area.xmin) or o.agent.orientation != O.F:
-            out.append(V('observation/agent-pose', f'{c}'))
+            out.append(V('observation/agent-pose', f'{c}{tag}'))
         if o.agent.grid_object is not s.agent.grid_object:
-            out.append(V('observation/held-item', f'{c}'))
+            out.append(V('observation/held-item', f'{c}{tag}'))
         return out
 
 
@@ -1264,12 +1407,32 @@ class C04(Oracle):
         outer = OuterEnv(inner, state_representation=srep, observation_representation=orep)
         acts = inner.action_space.actions
         inner.set_seed(c['seed'])
+        # a second, independent numeric environment of the same description, used in between: what one
+        # instance shows must never depend on another instance
+        inner2 = env_of_case(c)
+        outer2 = OuterEnv(inner2, state_representation=make_state_representation('default', inner2.state_space), observation_representation=make_observation_representation('default', inner2.observation_space))
+        inner2.set_seed(c['seed'] + 7)
+        outer2.reset()
+        for a in list(inner2.action_space.actions)[:3]:
+            outer2.step(a)
+        _ = (outer2.state, outer2.observation)
+        for what in ('state', 'observation'):
+            try:
+                getattr(outer, what)
+                out.append(V('outer/read-before-reset-does-not-raise', f'{what} of a never-reset environment (another instance had been used)'))
+            except RuntimeError:
+                pass
+            except Exception as e:
+                out.append(V('outer/read-before-reset-wrong-error', f'{what}: {type(e).__name__}'))
 
         def same(a, b):
             return a.keys() == b.keys() and all(np.array_equal(a[k], b[k]) for k in a)
 
         def probe(where):
             try:
+                o2, s2_ = outer2.observation, outer2.state
+                if not same(o2, outer2.observation_representation.convert(inner2.observation)) or not same(s2_, outer2.state_representation.convert(inner2.state)):
+                    out.append(V('outer/other-instance-not-current', f'{c.get("file", "random composition")} seed={c["seed"]} {where}'))
                 o = outer.observation
                 exp = orep.convert(inner.observation)
                 if not same(o, exp):
@@ -1294,6 +1457,16 @@ class C04(Oracle):
                 return out
             if k % 2 == 0 or d:
                 probe(f'after step {k}')
+            if k % 5 == 3:
+                outer2.step(inner2.action_space.actions[ai % len(inner2.action_space.actions)])
+                probe(f'after a step of the other instance at {k}')
+            if k % 7 == 4 and not d:
+                # the inner environment is the user's too: driving it directly must show through
+                try:
+                    _, d = inner.step(acts[ai])
+                except Exception:
+                    return out
+                probe(f'after a direct inner step at {k}')
             if d:
                 outer.reset()
                 probe(f'after reset following termination at step {k}')
@@ -2620,5 +2793,24 @@ class C14(Oracle):
         out.append(V(f'unwinnable/{name}', where))
         return out
 
+
+def _with_functional_interface(cls):
+    """the dynamics oracles judge a step taken in place; the same step through the functional interface
+    must be the same step and must leave the state it started from alone (see
+    `functional_interface_violations`)"""
+    orig = cls.check
+
+    def check(self, c):
+        out = orig(self, c)
+        if not out and c.get('kind') == 'step' and 'atoms' in c and 'answers' in c:
+            out = functional_interface_violations(c)
+        return out
+
+    cls.check = check
+    return cls
+
+
+for _cls in (C08, C09, C10, C11):
+    _with_functional_interface(_cls)
 
 ORACLES = {'C18': C18, 'C08': C08, 'C09': C09, 'C10': C10, 'C11': C11, 'C12': C12, 'C05': C05, 'C06': C06, 'C07': C07, 'C04': C04, 'C20': C20, 'C15': C15, 'C16': C16, 'C13': C13, 'C01': C01, 'C19': C19, 'C17': C17, 'C02': C02, 'C03': C03, 'C14': C14}
